@@ -532,6 +532,7 @@ type result struct {
 	// second box of a scenario whose preemption-bounded search hit the schedule cap
 	DevBound, DevSchedules int
 	DevComplete            bool
+	Diverged               int // replays that took another path than their prefix (map iteration order)
 	Outcomes               int
 	Viol                   []cviol
 	Sample                 string
@@ -582,6 +583,27 @@ func worker(tb []byte, progress func()) []byte {
 		return in
 	}
 	e := &explorer.Explorer{Bound: t.Bound, MaxSchedules: t.Max, AutoAdvance: sc.Timed || sc.PubSub, HorizonNs: int64(5 * time.Second)}
+	// PUBLISH walks the subscribers of a channel in Go's map iteration order: with two or more
+	// subscribers of one channel a replay may take another path
+	subs := map[string]int{}
+	for _, th := range sc.Threads {
+		for _, c := range th {
+			name := strings.ToUpper(c[0])
+			if i := strings.Index(name, ":"); i >= 0 {
+				name = name[i+1:]
+			}
+			if name == "SUBSCRIBE" {
+				for _, ch := range c[1:] {
+					subs[ch]++
+				}
+			}
+		}
+	}
+	for _, n := range subs {
+		if n >= 2 {
+			e.TolerateDivergence = true
+		}
+	}
 	if sc.ViaHandle {
 		e.Deviations = true
 		e.Shard, e.Of = t.Shard, t.Of
@@ -646,7 +668,8 @@ func worker(tb []byte, progress func()) []byte {
 	}
 	st := e.Explore(mk, visit)
 	res.Schedules, res.Preemptive, res.MaxPoints = st.Schedules, st.Preemptive, st.MaxPoints
-	res.Complete = !st.Truncated
+	res.Complete = !st.Truncated && st.Diverged == 0
+	res.Diverged = st.Diverged
 	if st.Truncated && !sc.ViaHandle {
 		// the schedule cap cut the preemption-bounded search (with 3-4 threads the free choices at
 		// blocking points alone are too many): a second, complete box - every schedule with at most
@@ -1131,11 +1154,18 @@ func main() {
 						}
 						ps["bound_completed"] = ps["bound_completed"].(bool) && r.Complete
 						ps["shards"] = ps["shards"].(int) + 1
+						if r.Diverged > 0 {
+							prev, _ := ps["replays_that_diverged_map_iteration_order"].(int)
+							ps["replays_that_diverged_map_iteration_order"] = prev + r.Diverged
+						}
 						merged = true
 					}
 				}
 				if !merged {
 					e := map[string]interface{}{"id": t.Scenario, "schedules": r.Schedules, "distinct_outcomes": r.Outcomes, "max_points": r.MaxPoints, "bound_completed": r.Complete, "shards": 1}
+					if r.Diverged > 0 {
+						e["replays_that_diverged_map_iteration_order"] = r.Diverged
+					}
 					if r.DevBound > 0 {
 						e["second_box_deviation_bound"] = r.DevBound
 						e["second_box_schedules"] = r.DevSchedules
